@@ -41,3 +41,15 @@ Proof.
   intros _. unfold observe_batch. rewrite !map_app. cbn.
   rewrite !nth_error_app2 by (rewrite map_length; lia). rewrite !map_length, !Nat.sub_diag. reflexivity.
 Qed.
+
+(* C13 on the check routes: a 5xx-class answer is only ever the engine's own non-schema (storage) error;
+   unknown namespaces, absent subjects and schema errors are client errors or plain denials *)
+Theorem server_error_only_from_engine rt e : t_status (observe rt e) = 500 -> exists r, e = ERes r false /\ r_err r = true.
+Proof.
+  destruct rt, e as [| |r bad]; cbn; try discriminate.
+  all: try (destruct (r_err r) eqn:Er; [destruct bad; cbn; try discriminate; intros _; eauto|]).
+  all: try (destruct (r_m r); cbn; discriminate).
+Qed.
+Theorem status_is_known rt e : In (t_status (observe rt e)) [200; 400; 403; 404; 500].
+Proof. destruct rt, e as [| |r bad]; cbn; auto 8.
+  all: try (destruct (r_err r); [destruct bad; cbn; auto 8|]; destruct (r_m r); cbn; auto 8). Qed.
